@@ -173,6 +173,26 @@ DropPermit(w) ==
     /\ txn' = [txn EXCEPT ![w] = @ + 1]
     /\ UNCHANGED <<sem, queue, slot, dirty, db, order, expected, mine, rbTaken, broken>>
 
+\* commit(permit) / rollback(permit) is cancelled after `slot.take()`, while `tx.commit().await` /
+\* `tx.rollback().await` is in flight: the sqlx transaction is dropped (COMMIT went through or it is
+\* rolled back - all or nothing), the permit, still uncommitted, is dropped with it and spawns the
+\* rollback task, which finds the slot empty   (sqlite.rs:375-379 cut at the await)
+CutCommit(w, wentThrough) ==
+    /\ pc[w] = "in_tx" /\ broken = "none"
+    /\ slot # "none"
+    /\ IF wentThrough
+       THEN /\ db' = db \o dirty
+            /\ order' = Append(order, TxId(w))
+            /\ expected' = expected \o mine[w]
+            /\ UNCHANGED aborted
+       ELSE /\ aborted' = aborted \cup {TxId(w)}
+            /\ UNCHANGED <<db, order, expected>>
+    /\ dirty' = <<>> /\ slot' = "none"
+    /\ rbSpawned' = rbSpawned \cup {TxId(w)}
+    /\ pc' = [pc EXCEPT ![w] = NextTx(w)]
+    /\ txn' = [txn EXCEPT ![w] = @ + 1]
+    /\ UNCHANGED <<sem, queue, mine, rbTaken, broken>>
+
 ---------------------------------------------------------------------------
 (* the spawned rollback task                                               *)
 
@@ -200,6 +220,7 @@ WriterStep(w) ==
     \/ SetSlot(w)
     \/ \E k \in Keys : TxWrite(w, k)
     \/ TakeCommit(w) \/ TakeRollback(w) \/ ReleasePermit(w) \/ DropPermit(w)
+    \/ \E c \in BOOLEAN : CutCommit(w, c)
 RbStep == \E r \in rbSpawned \cup rbTaken : RbTake(r) \/ RbRelease(r)
 
 Next ==
